@@ -1,23 +1,46 @@
 import EinoV.Oracle.C04
 import EinoV.Model.C19
+import EinoV.Model.C19Merge
+import EinoV.Expected.C19
 
 namespace EinoV.Oracle.C19
 open Lean EinoV EinoV.Engine EinoV.C04 EinoV.C19
 
 /-- case: {"g": graph, "input": text, "inChunks": [...]} → the preconditions of C19 evaluated
     on the model's stream-mode run: {"ok", "dropped", "noConsumer", "surplus"} -/
-def handle (c : Json) : JE Json := do
-  let (_, gs) ← C04.parseBoth (← J.field c "g")
+def handleGraph (c : Json) : JE Json := do
+  let (_, gs) ← C04.parseBoth lazyOps (← J.field c "g")
   let x ← J.str c "input"
   let pat := (J.arrD c "inChunks").filterMap (fun v => v.getNat?.toOption)
   let rs := compile GraphCase.defaultStepSlack gs
-  let xs : C04.SV := flatChunk pat [("in", x)]
-  let info := analyze streamOps rs xs
+  let xs : C04.SV := .ofList (flatChunk pat [("in", x)])
+  let info := analyze lazyOps rs xs
   let noConsumer := info.tasks.filterMap (fun t => if t.2.1 + t.2.2.2 == 0 then some t.1 else none)
   let surplus := info.tasks.filterMap (fun t => if t.2.2.1 > t.2.2.2 then some t.1 else none)
   let ledgerLeak := (info.tasks.map (fun t => (distribute false false t.2.1 t.2.2.1 t.2.2.2 0).leaked)).sum
   pure (Json.mkObj [("ok", Json.bool info.ok), ("dropped", J.mkStrs info.droppedAtEnd),
     ("noConsumer", J.mkStrs noConsumer), ("surplus", J.mkStrs surplus),
     ("leakWithoutClose", (ledgerLeak : Nat)), ("tasks", (info.tasks.length : Nat))])
+
+/-- merge case: {"kind":"merge", "srcs":[{"len","pre"}], "recv":[source positions in the order the
+    consumer received chunks], "eof": the consumer read to the end, "ordered": the positions are the
+    positions in the merged reader} → the verdict of the merged-reader model, with the loop shape
+    of `multiStreamReader.close` the theorems are proved for. -/
+def handleMerge (c : Json) : JE Json := do
+  let srcs ← (← J.arr c "srcs").mapM (fun j => do
+    pure ({ len := ← J.nat j "len", pre := J.boolD j "pre" false } : Merge.Src))
+  let recv ← J.natList c "recv"
+  let eof := J.boolD c "eof" false
+  let ordered := J.boolD c "ordered" true
+  let sh := Merge.CloseShape.ofFact Expected.C19.mergeCloseLoop
+  let v := Merge.judge sh srcs recv eof
+  -- merge order unknown: only a shape that does not depend on positions can be evaluated
+  let release := if ordered || sh.sound then v.release else
+    (List.range srcs.length).filter (fun i => !v.stillOpen.contains i)
+  pure (Json.mkObj [("admissible", Json.bool v.admissible), ("release", J.mkNats release),
+    ("ended", J.mkNats v.ended), ("stillOpen", J.mkNats v.stillOpen)])
+
+def handle (c : Json) : JE Json :=
+  if J.strD c "kind" "" == "merge" then handleMerge c else handleGraph c
 
 end EinoV.Oracle.C19
